@@ -6,7 +6,7 @@ import traceback
 
 from tools import lib
 
-TRANSLATORS = ["tr_classes", "tr_elements"]
+TRANSLATORS = ["tr_classes", "tr_elements", "tr_steps"]
 
 
 def regenerate_all():
